@@ -107,8 +107,15 @@ func (g *Gen) run() {
 	// global invariants and preconditions
 	env := g.funcEnv(g.entry, g.entry, nil)
 	for _, gi := range g.P.cs.Globals {
-		if t, ok := env.tryBool(gi.E); ok {
+		genv := *env
+		if p := g.P.pkgByName(gi.Pkg); p != nil {
+			genv.pkg = p
+		}
+		if t, ok := genv.tryBool(gi.E); ok {
 			g.assumeRaw(t)
+		} else if trimPkg(fn.Pkg.Pkg.Path()) == gi.Pkg {
+			// must translate at least inside its own package
+			genv.boolOf(gi.E)
 		}
 	}
 	if g.ct != nil {
@@ -244,6 +251,10 @@ func (g *Gen) run() {
 					}
 					g.checkNamed("inv-init", fmt.Sprintf("loop%d.%s", ord, clauseName(c, k)), ienv.boolOf(c.E), "loop invariant holds on entry: "+c.Src)
 				}
+				from := e.from
+				for _, a := range g.autoInv(b, func(p *ssa.Phi) Val { return g.val(p.Edges[predIndex(b, from)]) }) {
+					g.checkNamed("inv-init", fmt.Sprintf("loop%d.auto", ord), a, "range index within bounds on entry")
+				}
 			}
 			g.cur, g.st = cur, st
 			// 2. havoc
@@ -279,6 +290,12 @@ func (g *Gen) run() {
 			na := g.declConst(g.fresh("alloc@loop"+fmt.Sprint(ord)), "Int")
 			g.assumeRaw(sx("<=", st.alloc, na))
 			st.alloc = na
+			g.tagAlloc[ltag] = na
+			for _, k := range wl {
+				if t, ok := st.heaps[k]; ok {
+					g.verAlloc[t] = na
+				}
+			}
 			for _, in := range b.Instrs {
 				if phi, ok := in.(*ssa.Phi); ok {
 					v := g.freshVal("phi."+phi.Comment, phi.Type())
@@ -292,6 +309,9 @@ func (g *Gen) run() {
 					continue
 				}
 				g.assume(henv.boolOf(c.E))
+			}
+			for _, a := range g.autoInv(b, func(p *ssa.Phi) Val { return g.vals[p] }) {
+				g.assume(a)
 			}
 		} else {
 			// ordinary phis
@@ -349,6 +369,9 @@ func (g *Gen) run() {
 					}
 					g.checkNamed("inv-keep", fmt.Sprintf("loop%d.%s", ord, clauseName(c, k)), kenv.boolOf(c.E), "loop invariant is preserved: "+c.Src)
 				}
+				for _, a := range g.autoInv(to, func(p *ssa.Phi) Val { return g.val(p.Edges[predIndex(to, b)]) }) {
+					g.checkNamed("inv-keep", fmt.Sprintf("loop%d.auto", ord), a, "range index stays within bounds")
+				}
 				g.cur = save
 				return
 			}
@@ -386,8 +409,42 @@ func clauseName(c *Clause, k int) string {
 
 func (g *Gen) checkNamed(kind, what, cond, desc string) {
 	save := g.cur
+	g.noRefine = true
 	g.check(kind, what, cond, desc)
+	g.noRefine = false
 	g.cur = save // spec obligations do not refine the path
+}
+
+// autoInv: structural invariants that need no annotation. For a range loop
+// over a slice/array the hidden index stays within [-1, len-1].
+func (g *Gen) autoInv(h *ssa.BasicBlock, phiVal func(*ssa.Phi) Val) []string {
+	var out []string
+	for _, in := range h.Instrs {
+		phi, ok := in.(*ssa.Phi)
+		if !ok || phi.Comment != "rangeindex" {
+			continue
+		}
+		for _, in2 := range h.Instrs {
+			cmp, ok := in2.(*ssa.BinOp)
+			if !ok || cmp.Op != token.LSS {
+				continue
+			}
+			add, ok := cmp.X.(*ssa.BinOp)
+			if !ok || add.Op != token.ADD || add.X != ssa.Value(phi) {
+				continue
+			}
+			ln, have := g.vals[cmp.Y]
+			if _, isC := cmp.Y.(*ssa.Const); isC {
+				ln, have = g.val(cmp.Y), true
+			}
+			if !have {
+				continue
+			}
+			pv := phiVal(phi)
+			out = append(out, and(sx("<=", "(- 1)", pv.T), sx("<", pv.T, sx("+", ln.T, "1")), sx("<=", pv.T, sx("-", ln.T, "1"))))
+		}
+	}
+	return out
 }
 
 func (g *Gen) loopSpec(ord int) *LoopSpec {
@@ -833,7 +890,7 @@ func (g *Gen) load(x *ssa.UnOp) {
 		v := g.loadLoc(g.st, p.Loc)
 		v.G = et
 		g.set(x, v)
-		g.assume(g.typeInv(g.vals[x], g.st))
+		g.assume(g.typeInv(g.vals[x], g.boundState(p.Loc.Heap)))
 		return
 	}
 	g.check("nil", "load."+srcName(x.X), not(sx("=", p.T, "0")), "nil pointer dereference")
@@ -845,10 +902,25 @@ func (g *Gen) load(x *ssa.UnOp) {
 		hs := "(Array Int (Array Int " + g.sortOf(u.Elem()) + "))"
 		g.set(x, Val{T: sx("select", g.heap(g.st, hn, hs), p.T), S: g.sortOf(et), G: et})
 	default:
-		v := g.loadLoc(g.st, g.cellLoc(p, et))
+		l := g.cellLoc(p, et)
+		v := g.loadLoc(g.st, l)
 		g.set(x, v)
-		g.assume(g.typeInv(g.vals[x], g.st))
+		g.assume(g.typeInv(g.vals[x], g.boundState(l.Heap)))
 	}
+}
+
+// boundState: references read from a heap version that has not been written
+// since it was introduced (function entry, loop head, call return) were
+// allocated when that version was introduced.
+func (g *Gen) boundState(heapName string) *State {
+	t, ok := g.st.heaps[heapName]
+	if !ok {
+		t = g.heap(g.st, heapName, g.heapSort[heapName])
+	}
+	if a, ok := g.verAlloc[t]; ok {
+		return &State{alloc: a}
+	}
+	return g.st
 }
 
 func (g *Gen) store(x *ssa.Store) {
@@ -859,7 +931,11 @@ func (g *Gen) store(x *ssa.Store) {
 	}
 	et := x.Addr.Type().Underlying().(*types.Pointer).Elem()
 	if p.Loc != nil {
-		g.frameCheck(p.Loc.Heap, p.Loc.Base, p.Loc.Idx, p.Loc.Kind)
+		root := p.Loc
+		for root.Kind == LSub {
+			root = root.Parent
+		}
+		g.frameCheck(root.Heap, root.Base, root.Idx, root.Kind)
 		g.storeLoc(g.st, p.Loc, v.T)
 		return
 	}
@@ -894,7 +970,10 @@ func (g *Gen) indexAddr(x *ssa.IndexAddr) {
 	case *types.Pointer:
 		at := u.Elem().Underlying().(*types.Array)
 		if v.Loc != nil {
-			g.bail("index of unreified array address")
+			// array stored inside a field/cell: element of the array value
+			g.check("idx", srcName(x.X), and(sx("<=", "0", i.T), sx("<", i.T, fmt.Sprint(at.Len()))), "array index out of range")
+			g.vals[x] = Val{Loc: &Loc{Kind: LSub, Parent: v.Loc, Idx: i.T, Heap: v.Loc.Heap, Base: v.Loc.Base, S: g.sortOf(at.Elem()), G: at.Elem()}, G: x.Type()}
+			return
 		}
 		g.check("nil", "arrayptr", not(sx("=", v.T, "0")), "nil array pointer")
 		g.check("idx", srcName(x.X), and(sx("<=", "0", i.T), sx("<", i.T, fmt.Sprint(at.Len()))), "array index out of range")
@@ -907,7 +986,7 @@ func (g *Gen) indexAddr(x *ssa.IndexAddr) {
 func (g *Gen) makeSlice(x *ssa.MakeSlice) {
 	l, c := g.val(x.Len), g.val(x.Cap)
 	et := x.Type().Underlying().(*types.Slice).Elem()
-	g.check("lib-pre", "makeslice", and(sx("<=", "0", l.T), sx("<=", l.T, c.T), sx("<=", c.T, "2147483648")), "make: length negative, above capacity or above 2^31")
+	g.check("lib-pre", "makeslice", and(sx("<=", "0", l.T), sx("<=", l.T, c.T), sx("<=", c.T, "4611686018427387904")), "make: length negative or above capacity")
 	r := g.newRef(g.st)
 	hn := elemHeapName(et)
 	es := g.sortOf(et)
@@ -1175,6 +1254,7 @@ func (g *Gen) chanSend(st *State, ch, boxed string) {
 // ---------- return ----------
 
 func (g *Gen) ret(x *ssa.Return) {
+	g.retReach = append(g.retReach, g.cur)
 	if g.ct == nil {
 		g.cur = "false"
 		return
